@@ -165,7 +165,16 @@ def runVAL (env : Env) (p : Json) : Except Query Json :=
         match om.stop with
         | .miss q => .error q
         | _ =>
-          let sameM := encOut (crashBlind o) == encOut (crashBlind om)
+          -- where Python evaluates `None` as a schema it means the validator's own schema (tie_iter_errors_null);
+          -- the model says AttributeError. That only happens when something that is not a schema is evaluated
+          -- (a reference designating `null`): outside the domain, recognised by the guarded evaluator
+          let sameM := encOut (crashBlind o) == encOut (crashBlind om) ||
+            (match decCfg (fldD p "cls" .null) (fldD p "fc" .null) with
+             | (c, some d) =>
+               (match (evalGD env noFmtImpl d c.formatChecker fuel inst schema budget st).stop with
+                | .raised (.crash "UNSHAPED-REFERENCE-TARGET") => true
+                | _ => false)
+             | _ => false)
           match encOut o with
           | .obj kvs => .ok (.obj (kvs ++ [("srcDiff".toList, if same then (if sameM then .null else encOut om) else encOut os)]))
           | j => .ok j
